@@ -247,6 +247,24 @@ def token_default_ok(fn, prio_call, root):
         return False
     if sl.binops & {'Add', 'AddWithOverflow', 'Sub', 'SubWithOverflow', 'Div', 'Shl', 'Shr'}:
         return False
+    # the length is the BYTE length: every value that reaches the multiplication is the direct result of
+    # String::len / Vec::len (str::len / [T]::len) applied to LitStr::value() / LitByteStr::value() — a count of
+    # characters (`chars().count()`), of escaped text or of anything else derived from the literal is reported
+    def len_of_value(op, depth=0):
+        r = trace(fn, op)
+        if r[0] == 'multi' and depth < 3:
+            ds = [x for x in fn.defs().get(r[1], []) if not (x[0] == 'stmt' and x[3]['lhs']['proj'])]
+            return bool(ds) and all((x[0] == 'call' and len_call(x[3])) or (x[0] == 'stmt' and x[3]['rhs']['rv'] == 'use' and len_of_value(x[3]['rhs']['a'], depth + 1)) for x in ds)
+        return r[0] == 'call' and len_call(r[2])
+
+    def len_call(t):
+        if not re.search(r'(String::len|Vec::<T, A>::len|str::<impl str>::len|slice::<impl \[T\]>::len)$', fn.callee_name(t)):
+            return False
+        recv = fn.slice(t['args'][0], stop_re=r'(LitStr::value|LitByteStr::value)$')
+        inner = {c for c in recv.calls if not re.search(r'(LitStr::value|LitByteStr::value|Deref>::deref|::as_str|::as_bytes|::as_slice|::borrow|AsRef<.*>>::as_ref)$', c)}
+        return any(re.search(r'(LitStr::value|LitByteStr::value)$', c) for c in recv.calls) and not inner
+    if not len_of_value(oth[0]):
+        return False
     # both literal kinds must be covered and both read this definition's literal
     return len(vals) == 2 and any((root + '.literal') in D(fn, dict(op='copy', place=dict(local=l, proj=[]))) or True for l in [0])
 
